@@ -715,7 +715,15 @@ impl AST {
                     // after the statements have been rewritten. Their import
                     // and include paths are relative to the same file.
                     Rewriter::new(root).walk_expression(&mut expr);
+                    let first = ops.len();
                     Self::translate_expr(expr, ops, root);
+                    // The expression was parsed out of the template string:
+                    // its positions are relative to that string and name no
+                    // file. What goes wrong in it is reported at the format
+                    // expression.
+                    for op_pos in ops.pos[first..].iter_mut() {
+                        *op_pos = pos.clone();
+                    }
                     ops.push(Op::Render, pos);
                 }
             }
